@@ -1,7 +1,7 @@
 (** Correspondence evaluators for C12 and C10: the cases written by harness/cmd/c12 and c10 are
     compared with Sql/Model.v here (executable definitions only). *)
 From Coq Require Import List ZArith String Bool.
-From Thunder Require Import Sql.Model Sql.ModelExact.
+From Thunder Require Import Sql.Model Sql.ModelExact Sql.Methods.
 Import ListNotations.
 Open Scope string_scope.
 
@@ -49,9 +49,41 @@ Fixpoint nat_list_eqb (a b : list nat) : bool :=
   | _, _ => false
   end.
 
+Fixpoint bool_list_eqb (a b : list bool) : bool :=
+  match a, b with
+  | [], [] => true
+  | x :: a', y :: b' => Bool.eqb x y && bool_list_eqb a' b'
+  | _, _ => false
+  end.
+
+Definition obs_of_xevent (e : xevent) : obs_event :=
+  match e with
+  | XEv e => obs_of_event e
+  | XExplain s => OStmt ("EXPLAIN " ++ sql_text s) (sql_args s)
+  end.
+
+Fixpoint gfilter_eqb (a b : filter) : bool :=
+  match a, b with
+  | [], [] => true
+  | (k, v) :: a', (k', v') :: b' => String.eqb k k' && goval_eqb v v' && gfilter_eqb a' b'
+  | _, _ => false
+  end.
+Definition opt_filter_eqb (a b : option filter) : bool :=
+  match a, b with
+  | None, None => true
+  | Some x, Some y => gfilter_eqb x y
+  | _, _ => false
+  end.
+Definition handle_eqb (a b : handle) : bool :=
+  opt_filter_eqb (h_shard a) (h_shard b) && opt_filter_eqb (h_dyn a) (h_dyn b)
+  && Bool.eqb (h_dyn_cb a) (h_dyn_cb b) && Bool.eqb (h_dyn_continue a) (h_dyn_continue b).
+
 (** ** C12 *)
 Inductive c12_op : Type :=
 | Single (o : op)
+| SingleCall (steps : list step) (refused : list bool) (cl : call)
+    (* one exported method by name, on the handle derived from a fresh DB by the With* calls [steps];
+       [refused]: which of them answered "already ..." *)
 | Batched (fs : list filter) (arrival : list (list nat))
 | BatchedMulti (cs : list (handle * filter)) (arrival : list (list nat))   (* callers on several handles *)
 | Seq (ops : list op).                                                     (* inside one caller transaction *)
@@ -64,9 +96,17 @@ Record c12_case : Type := mk_c12 {
 
 (** Components: 1 = outcome, 2 = statements / arguments / transaction brackets, 3 = the callers that
     reached the batch function are not exactly those the model lets through, 4 = the generated case does
-    not meet the well-formedness hypotheses of the theorems (a harness defect). *)
+    not meet the well-formedness hypotheses of the theorems (a harness defect), 5 = the handle the
+    With* calls produced (limits kept, calls refused) is not the one the model derives. *)
 Definition c12_check (c : c12_case) : list nat :=
   match k_op c with
+  | SingleCall steps refused cl =>
+      let (x, r) := derive x_base steps in
+      let (ev, code) := run_call x (k_table c) (k_ctx c) cl in
+      (if nat_list_eqb [code] (k_outcomes c) then [] else [1])
+      ++ (if obs_list_eqb (map obs_of_xevent ev) (k_events c) then [] else [2])
+      ++ (if call_wfb x (k_table c) cl then [] else [4])
+      ++ (if handle_eqb (x_h x) (k_handle c) && bool_list_eqb r refused then [] else [5])
   | Single o =>
       let (ev, out) := run (k_handle c) (k_table c) (k_ctx c) o in
       (if nat_list_eqb [outcome_code out] (k_outcomes c) then [] else [1])
@@ -233,13 +273,6 @@ Definition has_opts (cs : list c10_caller) (i : nat) : bool :=
     8 = a caller inside the premise of [c10_transparent_filters_get_their_own_rows] was observed to get
     another result on the batching context than alone (the theorem's conclusion, checked on the
     implementation's outputs under the model's premise). *)
-Fixpoint bool_list_eqb (a b : list bool) : bool :=
-  match a, b with
-  | [], [] => true
-  | x :: a', y :: b' => Bool.eqb x y && bool_list_eqb a' b'
-  | _, _ => false
-  end.
-
 Fixpoint premise_conclusion (t : table) (fs : list filter) (batched single : list (nat * list nat)) : bool :=
   match fs, batched, single with
   | f :: fs', b :: bs, s :: ss =>
